@@ -265,6 +265,66 @@ class Body:
         d = self.dominators()
         return b in d and a in d[b]
 
+    _ipdom = None
+
+    def ipdom(self):
+        """immediate post-dominator of every reachable block (Cooper-Harvey-Kennedy on the reverse CFG with a virtual exit -1 behind
+        every block without successors); blocks that cannot reach an exit have no entry."""
+        if self._ipdom is not None:
+            return self._ipdom
+        reach = {b for b in self.reachable(0) if self.blocks[b]["t"].get("k") not in ("unreachable", "resume", "abort")}   # `_ => unreachable!()` arms are not exits
+        EXIT = -1
+        rsucc = {EXIT: []}      # reverse graph: successors in the reverse CFG = predecessors in the CFG
+        for b in reach:
+            ss = [x for x in self.succs(b) if x in reach]
+            if not ss:
+                rsucc[EXIT].append(b)
+        rpreds = {}             # predecessors in the reverse CFG = successors in the CFG (+ EXIT for sinks)
+        for b in reach:
+            ss = [x for x in self.succs(b) if x in reach]
+            rpreds[b] = ss if ss else [EXIT]
+            for x in ss:
+                rsucc.setdefault(x, []).append(b)
+        # reverse postorder of the reverse CFG from EXIT
+        seen, post = {EXIT}, []
+        stack = [(EXIT, iter(rsucc.get(EXIT, [])))]
+        while stack:
+            b, it = stack[-1]
+            adv = False
+            for x in it:
+                if x not in seen:
+                    seen.add(x)
+                    stack.append((x, iter(rsucc.get(x, []))))
+                    adv = True
+                    break
+            if not adv:
+                post.append(b)
+                stack.pop()
+        order = post[::-1]
+        idx = {b: i for i, b in enumerate(order)}
+        idom = {EXIT: EXIT}
+        changed = True
+        while changed:
+            changed = False
+            for b in order[1:]:
+                ps = [p for p in rpreds.get(b, []) if p in idom]
+                if not ps:
+                    continue
+                new = ps[0]
+                for p in ps[1:]:
+                    a, c = p, new
+                    while a != c:
+                        while idx[a] > idx[c]:
+                            a = idom[a]
+                        while idx[c] > idx[a]:
+                            c = idom[c]
+                    new = a
+                if idom.get(b) != new:
+                    idom[b] = new
+                    changed = True
+        self._ipdom = {b: v for b, v in idom.items() if b != EXIT}
+        return self._ipdom
+
     # ------------------------------------------------------------ error exits
     def error_exit_blocks(self, extra_call_pats=()):
         """Blocks that put an error into the return place: `?` residual propagation,
